@@ -51,6 +51,8 @@ CV(ov, s, e) == [kind |-> "cv", ov |-> ov, start |-> s, end |-> e, dv |-> 0, df 
 \* an SDK delayed vesting account (everything locked until end): not a product of the custom messages, but it can be the
 \* signer or the target of one - the custom messages must refuse to touch it
 Delayed(ov, e) == [kind |-> "delayed", ov |-> ov, start |-> 0, end |-> e, dv |-> 0, df |-> 0]
+\* an SDK permanent locked account: its original vesting never unlocks (it may only be delegated)
+PermLocked(ov) == [kind |-> "permlocked", ov |-> ov, start |-> 0, end |-> 0, dv |-> 0, df |-> 0]
 NoTrace == [has |-> FALSE, genesis |-> FALSE, fromPool |-> FALSE, fromAcc |-> FALSE]
 Trace(g, p, a) == [has |-> TRUE, genesis |-> g, fromPool |-> p, fromAcc |-> a]
 
@@ -59,7 +61,8 @@ VT(n) == CHOOSE vt \in VTypes : vt.name = n
 
 (* ---- x/auth ContinuousVestingAccount (sdk 0.46.10) ---- *)
 VestingC(a, t) == IF a.kind = "cv" THEN [d \in Denoms |-> Vesting1(a.ov[d], a.start, a.end, t)]
-                  ELSE IF a.kind = "delayed" THEN (IF t >= a.end THEN ZeroC ELSE a.ov) ELSE ZeroC
+                  ELSE IF a.kind = "delayed" THEN (IF t >= a.end THEN ZeroC ELSE a.ov)
+                  ELSE IF a.kind = "permlocked" THEN a.ov ELSE ZeroC
 \* BaseVestingAccount.LockedCoinsFromVesting: vesting minus min(vesting, delegated vesting)
 LockedC(a, t) == TLCEval([d \in Denoms |-> IF d = VDenom THEN Max(0, VestingC(a, t)[d] - a.dv) ELSE VestingC(a, t)[d]])
 SpendableC(x, t) == SubC(bal[x], LockedC(acct[x], t))
@@ -224,13 +227,13 @@ Advance(d) ==
 
 \* the owner of an account delegates amt of VDenom through x/staking (bank.DelegateCoins -> TrackDelegation)
 Delegate(x, sel) ==
-  /\ Configured /\ msgs < MaxMsgs /\ acct[x].kind \in {"base", "cv", "delayed"}
+  /\ Configured /\ msgs < MaxMsgs /\ acct[x].kind \in {"base", "cv", "delayed", "permlocked"}
   /\ LET amt == Resolve(sel, bal[x][VDenom]) IN
        /\ amt > 0 /\ amt <= bal[x][VDenom]
        /\ LET v == VestingC(acct[x], now)[VDenom]
               dvx == Min(Max(v - acct[x].dv, 0), amt)
           IN /\ bal' = [bal EXCEPT ![x] = SubC(@, Only(VDenom, amt))]
-             /\ acct' = IF acct[x].kind \in {"cv", "delayed"} THEN [acct EXCEPT ![x].dv = @ + dvx, ![x].df = @ + (amt - dvx)] ELSE acct
+             /\ acct' = IF acct[x].kind \in {"cv", "delayed", "permlocked"} THEN [acct EXCEPT ![x].dv = @ + dvx, ![x].df = @ + (amt - dvx)] ELSE acct
              /\ act' = [name |-> "delegate", a |-> x, amt |-> amt]
   /\ msgs' = msgs + 1
   /\ UNCHANGED <<now, modBal, pools, traces, vdenom>>
